@@ -107,6 +107,7 @@ func TestLifecycle(t *testing.T) {
 			"optionally from a second goroutine while traffic is in progress), 1 ms intervals, every call under a watchdog; non-trivial = an Unbind followed by more ticks, or a Close with traffic in flight; "+
 			"distinct by interceptor and operation trace")
 	rapid.Check(t, func(t *rapid.T) {
+		kit.Idle()
 		name := rapid.SampledFrom(members).Draw(t, "member")
 		if only := os.Getenv("VERIF_C11_MEMBER"); only != "" {
 			name = only
